@@ -15,7 +15,7 @@ import argparse
 import os
 import itertools
 
-from sx.values import json_identical, land, lnot, lor, implies, snapshot
+from sx.values import json_identical, unchanged, land, lnot, lor, implies, snapshot
 from gen import notebooks as G
 from oracles import schema as schemas
 from oracles.refapply import refapply, RefApplyError, ordering_errors
@@ -242,11 +242,11 @@ def merge_obligations(E, b, l, r, args, tool, props, known, info=None):
             decide_merge_with_diff(b, l, r, dl, dr, notebook_merge_strategies(args))
         except Exception:  # noqa  (C03's business)
             pass
-        E.check("decide-leaves-supplied-local-diff-unchanged", json_identical(dl, sdl))
-        E.check("decide-leaves-supplied-remote-diff-unchanged", json_identical(dr, sdr))
-        E.check("merge-leaves-base-unchanged", json_identical(b, snaps[0]))
-        E.check("merge-leaves-local-unchanged", json_identical(l, snaps[1]))
-        E.check("merge-leaves-remote-unchanged", json_identical(r, snaps[2]))
+        E.check("decide-leaves-supplied-local-diff-unchanged", unchanged(dl, sdl))
+        E.check("decide-leaves-supplied-remote-diff-unchanged", unchanged(dr, sdr))
+        E.check("merge-leaves-base-unchanged", unchanged(b, snaps[0]))
+        E.check("merge-leaves-local-unchanged", unchanged(l, snaps[1]))
+        E.check("merge-leaves-remote-unchanged", unchanged(r, snaps[2]))
         sh = shared_containers(merged, [("base", b)])
         E.check("merged-shares-no-container-with-base", not sh, info=sh[:3])
     if "C04" in props:
